@@ -79,6 +79,12 @@ CHECKS["C12"] = dict(
     text="Design: all page sizes 1..4 x counts 0..13 x empty-geometry subsets (conservation, pages full, completeness, termination). Code: for every page size 1..5 (1..12 thorough) and every count 0..3P+1 a random source table is read by the real SourceGeopackage and written by the real TargetGeopackage; the observation sequence must be a behaviour of the specification, whose final guard demands one row per feature in order with intact values, the exact spatial-index id set, the exact integer extent and matching schema metadata.",
     note="Trusted: TLC; the verif-tagged SQLite stub for libspatialite; DeepEqual comparison of values/geometries in the harness; SQLite itself.")
 
+CHECKS["C13"] = dict(
+    category="model_checking", design_ref="DESIGN.md §7 C13",
+    technique="TLA+ model of the tool (Cli.tla: validation gate, target naming on character sequences, overwrite, per-table loop) checked by TLC; every run of the real binary recorded with the library's own results and judged by CliTrace.tla; TLC-enumerated safe target paths replayed through the binary",
+    text="Design: file-system state machine for all flag / pre-existing-file / validation / outside-grid combinations. Code: the real binary (built from the working tree with the verif tag) runs on random multi-table sources; TLC decides from the recorded facts which files must exist (TargetPath on characters), which rows in which order each table must hold, the geometry class, and that each polygon row's geometry is the library's result for THAT file's tile matrix; 24-300 of the 2028 TLC path vectors are each run through the binary.",
+    note="Trusted: TLC; the harness's direct library call as oracle (as the property states); DeepEqual geometry/attribute comparison; SQLite stub for libspatialite.")
+
 NOT_YET = {}
 
 ALL = ["C%02d" % i for i in range(1, 19)]
